@@ -186,11 +186,11 @@ def own_output(ctx, report, sn, clause="3"):
                 continue
             except AnalysisError as e:
                 raise AnalysisError(f"{rname}.read cannot be folded on {wname}'s output: {e}")
-            caps = list(r.attrs["_captions"].values())[0] if isinstance(r, Stub) and isinstance(r.attrs.get("_captions"), dict) \
-                and r.attrs["_captions"] else None
-            if caps is None:
-                raise AnalysisError(f"{rname}.read: folded result is not a CaptionSet")
-            n_read = len(caps.attrs["__list__"]) if isinstance(caps, Stub) else len(caps)
+            from .foldutil import captions_by_language
+            by_lang = captions_by_language(r, F, f"{rname}.read")
+            if not by_lang:
+                raise AnalysisError(f"{rname}.read: folded result has no language")
+            n_read = len(list(by_lang.values())[0])
             n_first = len(list(langs.values())[0])
             if n_read < n_first:
                 unreadable.append({"caption_set": label, "document": doc[:120], "captions_read": n_read,
